@@ -151,8 +151,17 @@ class _Patches:
             self._set(os, n, (lambda v: (lambda: v))(self.ids))
         self._set(pwd, "getpwnam", rec("getpwnam", ("nobody", "x", self.uid, 7777, "", "/", "")))
         self._set(grp, "getgrnam", rec("getgrnam", ("nogroup", "x", self.gid, [])))
-        o_get_server, o_ssl = initialization.get_server, initialization.init_ssl_context
+        o_get_server = initialization.get_server
         servers = self.servers = []
+        import ssl as _ssl
+        o_load = _ssl.SSLContext.load_cert_chain
+
+        def load_cert_chain(ctx_, *a, **kw):
+            # wherever the code loads the key from (start-up, or lazily on the first TLS connection): this is the moment
+            r = o_load(ctx_, *a, **kw)
+            trace.append(("tls-load", True))
+            return r
+        self._set(_ssl.SSLContext, "load_cert_chain", load_cert_chain)
 
         def get_server(config, context=None):
             s = o_get_server(config, context=context)
@@ -160,12 +169,7 @@ class _Patches:
             trace.append(("bind", s.socket.getsockname()[1] != 0, context is not None))
             return s
 
-        def init_ssl_context(config):
-            c = o_ssl(config)
-            trace.append(("tls-load", c is not None))
-            return c
         self._set(initialization, "get_server", get_server)
-        self._set(initialization, "init_ssl_context", init_ssl_context)
         self._set(initialization, "init_signal_handlers", lambda: trace.append(("signals",)))
         self._set(initialization, "init_process_group", lambda config: trace.append(("setpgrp",)))
         o_init_config = initialization.init_config
